@@ -65,6 +65,9 @@ pub struct WorldSpec {
     /// must then be 10
     #[serde(default)]
     pub omit_max_retained: bool,
+    /// the repository uses SHA-256 object names (64 hex digits) instead of SHA-1
+    #[serde(default)]
+    pub sha256_repo: bool,
 }
 
 impl WorldSpec {
@@ -339,7 +342,11 @@ impl World {
             let mut gi = vec!["monorail-out".to_string(), ".ctl".to_string(), "/Monorail.json".to_string(), "/.backup-out".to_string(), "/.fs.log".to_string()];
             gi.extend(spec.gitignore.iter().cloned());
             w.write_file(".gitignore", &(gi.join("\n") + "\n"))?;
-            w.git(&["init", "-q", "-b", "main"])?;
+            if spec.sha256_repo {
+                w.git(&["init", "-q", "-b", "main", "--object-format=sha256"])?;
+            } else {
+                w.git(&["init", "-q", "-b", "main"])?;
+            }
             w.git(&["add", "-A"])?;
             w.git(&["commit", "-q", "-m", "init"])?;
         }
